@@ -356,14 +356,16 @@ func (fv *FV) evalBinary(st *State, x *ast.BinaryExpr) Term {
 			st.assume(tImp(guard, Term{f, SBool}))
 		}
 		// propagate state changes (calls in rhs are rare; take rhs state for vars when identical keys)
-		for k, v := range sub.vars {
+		for _, k := range sortedObjs(sub.vars) {
+			v := sub.vars[k]
 			if old, ok := st.vars[k]; !ok || old.S != v.S {
 				if ok {
 					st.vars[k] = tIte(guard, v, old)
 				}
 			}
 		}
-		for k, v := range sub.ghost {
+		for _, k := range sortedKeys(sub.ghost) {
+			v := sub.ghost[k]
 			if old := st.ghost[k]; old.S != v.S {
 				st.ghost[k] = tIte(guard, v, old)
 			}
